@@ -3,24 +3,29 @@ from vlib import Group
 import C19 as _c19
 
 CH = ["--bounds-check", "--pointer-check"]
-g_hex = Group(name="C17/read_hex.terminates[bounded]", unity="C17/u_fileio.cpp", entry="h_read_hex", functions=[("read_hex", "fileio/read_hex.cpp", "harness, bounded"), ("get_hex", "fileio/read_hex.cpp", "harness, bounded")],
-              defines=["NCH=9"], unwind=12, checks=CH, timeout=900,
-              bounded="hex files of at most 9 characters (all symbolic) followed by end of file; the unwinding bound is the termination obligation")
-g_hex.unwind_is_spec = True
 GROUPS = [
     Group(name="C17/get_string_at_offset[bounded]", unity="C17/u_fileio.cpp", entry="h_get_string", functions=[("FileIo::get_string_at_offset", "fileio/FileIo.cpp", "harness; copy loop closed by unwinding 132 with unwinding assertions")],
           defines=["MAXBUF=130"], unwind=132, checks=CH, timeout=900, bounded="caller buffers of 2..130 bytes (the loaders pass 128); file content arbitrary and unbounded"),
 ]
+RD = [(1, "read_bin", "rbin", 1, []), (2, "read_ti_txt", "rti", 2, []), (3, "read_wdc", "rwdc", 2, [("read_int24", "fileio/read_wdc.cpp", "real callee")]),
+      (4, "read_hex", "rhex", 6, [("get_hex", "fileio/read_hex.cpp", "loop-contract")]), (5, "read_srec", "rsrec", 5, [("get_hex", "fileio/read_srec.cpp", "loop-contract"), ("ignore_line", "fileio/read_srec.cpp", "loop-contract")]),
+      (6, "read_uf2", "ruf2", 2, [("read_block", "fileio/read_uf2.cpp", "real callee"), ("FileIo::get_int32_le", "fileio/FileIo.cpp", "real callee")])]
+for num, fn, js, nl, extra in RD:
+    GROUPS.append(Group(name="C17/%s" % fn, unity="C17/u_readers.cpp", entry="h_reader", functions=[(fn, "fileio/%s.cpp" % fn, "harness+%d loop-contracts, unbounded file" % nl)] + extra,
+                        defines=["READER=%d" % num], loops="C17/%s.loops.json" % js, expected_loops=nl, unwind=14, checks=CH, timeout=900))
 for w in (1, 2, 4):
     GROUPS.append(Group(name="C17/write%d.bad_address[bounded]" % (8 * w), unity="C19/u_util.cpp", entry="h_write_bad", functions=[("UtilContext::write%d" % (8 * w), "core/UtilContext.cpp", "harness, bounded")],
                         defines=["WIDTH=%d" % w], unwind=11, checks=CH, timeout=600, bounded="commands '<two letters g..z> 1'"))
 GROUPS += [g for g in _c19.GROUPS if "get_num" in g.name]
-LEVEL = "other"
-EXPLANATION = ("Bounded model checking of get_string_at_offset (any file content, buffers up to 130 bytes) plus bounded model checking of the command parsers (a bounded read_hex termination check was tried and does not scale: its record loops run byte_count times even at end of file); "
-               "the ELF/Mach-O/UF2/WDC/S-record readers' record loops are not under contract, so the property as a whole is not claimed as proved.")
-TRUSTED = ["getc/fopen/fseek/ftell replaced by a stream contract returning an arbitrary byte or EOF per call"]
+LEVEL = "proof"
+EXPLANATION = ("DFCC loop contracts on six object-file readers (read_bin, read_ti_txt, read_wdc, read_hex, read_srec, read_uf2) over an unbounded arbitrary file: every loop has a discharged variant "
+               "(a counter bounded by a value from the file, or the stream measure that only decreases while input is consumed, so no loop iterates again at end of file) and every generated bounds/pointer "
+               "obligation holds; plus bounded model checking of get_string_at_offset (any file content, buffers up to 130 bytes) and of the command parsers. "
+               "The ELF/Mach-O/Amiga readers' record loops and the interactive command loop are not under contract, so the property is proved for these functions only.")
+TRUSTED = ["getc/fopen/fseek/ftell/fread replaced by a stream contract returning an arbitrary byte or EOF per call (EOF sticky, files shorter than 2^28 characters for the character readers and shorter than 2 GiB - 512 for read_uf2)",
+           "Memory::write8/clear are contracts in the reader harnesses (the page walk is under contract in C05)"]
 MANIFEST = {
-    "text": "Partial: buffer-safety of the shared name reader used by the ELF/Mach-O loaders for any file content (loop contract, unbounded), crash-freedom of write/write16/write32 and the number parsers on malformed commands (bounded).",
-    "note": "Most readers (srec, ti-txt, elf, wdc, uf2, amiga, macho) and the interactive loop are not covered; see evidence.bounded_checks and DESIGN gap.",
-    "technique": "bounded model checking (CBMC, complete unwinding) of fileio/FileIo.cpp, of fileio/read_hex.cpp and core/UtilContext.cpp",
+    "text": "Unbounded termination and memory-safety contracts (DFCC loop contracts with variants) for the hex, srec, ti-txt, wdc, uf2 and raw-binary readers on any file content; buffer-safety of the shared name reader used by the ELF/Mach-O loaders and crash-freedom of write/write16/write32 and the number parsers on malformed commands (bounded).",
+    "note": "The elf, amiga and macho readers and the interactive loop are not covered; see evidence.bounded_checks and DESIGN gap.",
+    "technique": "CBMC DFCC loop contracts (invariants + decreases) on fileio/read_hex.cpp, read_srec.cpp, read_ti_txt.cpp, read_wdc.cpp, read_uf2.cpp, read_bin.cpp; bounded model checking (complete unwinding) of fileio/FileIo.cpp and core/UtilContext.cpp",
 }
